@@ -82,6 +82,9 @@ theorem stale_cache_witness :
 /-- the source as it is now invalidates on assignment and forwards the clustering radii -/
 theorem source_invalidates : MatidGen.ClusterRule.invalidatesOnSet = true := by decide
 theorem source_forwards_radii : MatidGen.ClusterRule.forwardsRadii = true := by decide
+/-- atoms, radii and the cached sub-matrix are taken in the same order, and nothing outside the class writes the caches the state
+machine above is about (e.g. a pre-filled dimensionality) -/
+theorem source_aligned_and_private : MatidGen.ClusterRule.atomsInIndexOrder = true ∧ MatidGen.ClusterRule.externalCacheWrites = [] := by decide
 
 /-- the shared distance information of get_clusters is computed with the resolved clustering radii, and every `Cluster(...)` construction in sbc.py (the search loop AND the merge step) passes the structure, the distances, the
 clustering radii and the bond threshold on — a cluster created without them would evaluate its shortcut with defaults -/
